@@ -267,7 +267,8 @@ def parse_template(text, unit_path):
                     elif key == "debug-assert":
                         d.debug_assert = rest.strip()
                     elif key == "replace":
-                        a, b = rest.split("=>", 1)
+                        # `==>>` separates pattern and replacement when the pattern itself contains `=>` (match arms)
+                        a, b = rest.split("==>>", 1) if "==>>" in rest else rest.split("=>", 1)
                         d.replaces.append((a.strip(), b.strip()))
                     elif key == "rename-generic":
                         a, b = rest.split()
